@@ -19,5 +19,6 @@ func controlsC03() []Control {
 		{Name: "leave filter compares ids for inequality", Expect: "R4", Mutate: replaceIn("(*tableEngine).calcLeavePlayers", "return player.PlayerID == leavePlayerID", "return player.PlayerID != leavePlayerID", 0)},
 		{Name: "leave filter skips the first player", Expect: "R4", Mutate: replaceIn("(*tableEngine).calcLeavePlayers", "for _, player := range currentPlayers {\n\t\texist", "for _, player := range currentPlayers[1:] {\n\t\texist", 0)},
 		{Name: "seated-in flag cleared at settlement", Expect: "R7", Mutate: replaceIn("(*tableEngine).settleGame", "playerState.Bankroll += player.Changed", "playerState.Bankroll += player.Changed\n\t\tplayerState.IsIn = playerState.Bankroll > 0", 0)},
+		{Name: "new seat map leaves seat 0 looking occupied", Expect: "R6", Mutate: replaceIn("NewDefaultSeatMap", "for seatIdx := 0; seatIdx < seatCount; seatIdx++ {", "for seatIdx := 1; seatIdx < seatCount; seatIdx++ {", 0)},
 	}
 }
